@@ -7,6 +7,7 @@ use std::io::{BufRead, Read};
 mod time_k;
 mod sm;
 mod version_k;
+mod uri_k;
 
 fn dispatch(req: &Value) -> Value {
     let kernel = req["kernel"].as_str().unwrap_or("");
@@ -14,6 +15,7 @@ fn dispatch(req: &Value) -> Value {
         k if k.starts_with("time.") => time_k::run(k, req),
         k if k.starts_with("sm.") => sm::run(k, req),
         k if k.starts_with("version.") => version_k::run(k, req),
+        k if k.starts_with("uri.") => uri_k::run(k, req),
         _ => json!({"error": format!("unknown kernel {}", kernel)}),
     });
     match r {
